@@ -51,6 +51,7 @@ type listener struct {
 	mu    sync.Mutex
 
 	ln           net.Listener
+	stopped      bool // no more connections are accepted, guarded by mu
 	conns        map[net.Conn]struct{}
 	connsWg      sync.WaitGroup
 	connHandleFn ConnHandlerFunc
@@ -226,7 +227,7 @@ func (l *listener) wrapRawConn(rawConn net.Conn) net.Conn {
 func (l *listener) addConn(conn net.Conn) bool {
 	l.mu.Lock()
 	defer l.mu.Unlock()
-	if l.conns == nil {
+	if l.stopped {
 		return false
 	}
 	if l.connsLimit() {
@@ -243,9 +244,6 @@ func (l *listener) addConn(conn net.Conn) bool {
 func (l *listener) removeConn(conn net.Conn) {
 	l.mu.Lock()
 	defer l.mu.Unlock()
-	if l.conns == nil {
-		return
-	}
 	if _, ok := l.conns[conn]; !ok {
 		return
 	}
@@ -291,16 +289,21 @@ func (l *listener) Stop() error {
 		close(l.quit)
 	})
 
+	// NOTE: the connections stay registered until their handlers are done, so
+	// that they are accounted as destroyed like any other connection.
 	l.mu.Lock()
-	conns := l.conns
-	l.conns = nil
+	l.stopped = true
+	conns := make([]net.Conn, 0, len(l.conns))
+	for conn := range l.conns {
+		conns = append(conns, conn)
+	}
 	ln := l.ln
 	l.mu.Unlock()
 
 	if ln != nil {
 		ln.Close()
 	}
-	for conn := range conns {
+	for _, conn := range conns {
 		conn.Close()
 	}
 	<-l.done
